@@ -1,7 +1,52 @@
-(* Properties/C01.v — DSL -> model -> DSL -> model is the identity.  Statements only. *)
-From Verif Require Import Base.Str Base.Outcome Model.Ast Model.Transform.
+(* Properties/C01.v — DSL -> model -> DSL -> model is the identity on every accepted document.
+   Statements only; proofs in Proofs/RoundTrip.v (over ListenerSem, ListenerFile, PrinterExpressible).
+   Proved, for every accepted document: rendering the parsed model always succeeds — with either API path,
+   since the JSON hop is the identity on parsed models (the first clause of the property, and the reason the
+   defect F1 made the direct path fail for every direct assignment).  NOT proved: that parsing the
+   rendering gives the same model back and that the text is then byte-stable — this needs the inversion
+   of printer and lexer/parser at text level, which was not mechanised; it is decided on every run by
+   running the three-round composition of the implementation on each accepted document (both paths) and,
+   as correspondence, the model's own composition (Transform.roundtrip) against it. *)
+From Verif Require Import Base.Str Base.Outcome Model.Ast Model.Token Model.Parser Model.Listener Model.Printer
+  Model.Transform Spec.Sem Spec.Expressible Proofs.ListenerSem Proofs.ListenerFile Proofs.ParserShape Proofs.RoundTrip.
 
-(* the JSON hop only normalises the representation of `this` and is idempotent *)
+(* 1. what the parser can produce for a relation is always printable: carriable, at most one direct assignment,
+      and that one in a position from which it can be written first *)
+Theorem C01_parsed_relation_is_expressible : forall d, wf_rdef d = true ->
+  carriable (sem_rdef d) = true /\ expressible (sem_rdef d) = true.
+Proof. exact parsed_relation_expressible. Qed.
+
+Theorem C01_parsed_relation_prints : forall d ty rel meta src,
+  wf_rdef d = true -> exists t, print_relation ty rel (sem_rdef d) meta src = Ok t.
+Proof. exact parsed_relation_prints. Qed.
+
+(* 2. the whole document: the model built from any grammatical tree in which nothing is declared twice is
+      rendered successfully (scalar_params: a scalar parameter type token is not spelled `list`/`map`, which
+      the lexer guarantees by assigning those spellings to the container token) *)
+Theorem C01_rendering_succeeds : forall src f,
+  wf_file f -> distinct_decls f -> scalar_params f -> exists t, fst (print_model src (sem_file f)) = Ok t.
+Proof. exact parsed_model_prints. Qed.
+
+(* 2'. from the token stream: every stream the parser and the listener accept *)
+Theorem C01_rendering_succeeds_for_accepted_streams : forall ts m exts modular,
+  parse_walk ts = DOk m exts modular ->
+  exists f, parse ts = Some f /\
+    (Forall (fun t => tname t <> []) (f_types f) -> scalar_params f -> exists t, fst (print_model false m) = Ok t).
+Proof.
+  intros ts m exts modular H. unfold parse_walk in H.
+  destruct (parse ts) as [f|] eqn:Ep; [|discriminate]. exists f. split; [reflexivity|].
+  intros Hn Hs. pose proof (parse_wf ts f Ep) as Hwf.
+  destruct (walk f) as [s| |] eqn:Ew; try discriminate. destruct (ls_errs s) eqn:Ee; [|discriminate]. inversion H; subst.
+  pose proof (walk_accepts_only_distinct f s Hwf Hn Ew Ee) as Hd.
+  destruct (walk_is_sem f Hwf Hd) as [s' [Ew' [_ Em]]]. rewrite Ew in Ew'. inversion Ew'; subst.
+  rewrite Em. apply parsed_model_prints; assumption.
+Qed.
+
+(* 3. the JSON string API and the in-memory path see the same model: marshalling and unmarshalling a parsed
+      rewrite changes nothing *)
+Theorem C01_json_hop_is_identity_on_parsed_rewrites : forall e, json_userset (sem_elem e) = sem_elem e.
+Proof. exact json_sem_elem. Qed.
+
 Theorem C01_json_idempotent : forall u, json_userset (json_userset u) = json_userset u.
 Proof.
   induction u using userset_ind'; simpl; try reflexivity.
